@@ -42,6 +42,7 @@ func (w *World) apply(st Step) string {
 	w.StepNo = st.I
 	w.Stats.Steps[st.K]++
 	out := w.applyInner(st)
+	w.tr("step", st.K, out)
 	w.Stats.StepOutcomes[st.K+"="+out]++
 	return out
 }
@@ -222,6 +223,9 @@ func (w *World) genBlock(r *Rand) *BlockArgs {
 		for i := 0; i < n; i++ {
 			a.Rounds = append(a.Rounds, RoundSpec{Kind: pick(r, []string{"proposer-down", "drop", "drop", "crash-proposer"})})
 		}
+	}
+	if len(w.ProbeTxs) > 0 {
+		a.Rounds = append(a.Rounds, RoundSpec{Kind: "byz", Mut: "append-probe", Forced: true})
 	}
 	if r.Chance(w.weight("p.byz")) {
 		a.Rounds = append(a.Rounds, RoundSpec{Kind: "byz", Mut: pick(r, byzMutations), Forced: r.Chance(0.5)})
